@@ -336,7 +336,20 @@ func (env *specEnv) eval(e ast.Expr) Val {
 		case *types.Map:
 			m := env.eval(e.X)
 			v, _ := x.mapLookup(env.h(), t, m.ts[0], env.eval(e.Index))
-			return v
+			// ground lookups are named: the ite-shaped lookup term may not occur in quantifier patterns, and a
+			// nested map reference m[a][b] is exactly where patterns are needed
+			out := Val{ts: make([]Term, len(v.ts))}
+			ls := leaves(t.Elem())
+			for i, tm := range v.ts {
+				if strings.Contains(tm, "qbv$") || !strings.Contains(tm, "(ite ") || i >= len(ls) {
+					out.ts[i] = tm
+					continue
+				}
+				c := x.freshConst("speclookup", ls[i].Sort.String())
+				x.sc.assert(eq(c, tm))
+				out.ts[i] = c
+			}
+			return out
 		case *types.Slice:
 			p, et, _ := x.evalAddr(env, e)
 			return x.loadAt(env.h(), p, et)
@@ -593,7 +606,7 @@ func (env *specEnv) call(e *ast.CallExpr) Val {
 				return Val{ts: []Term{x.hget(env.prev, key)}} // prev(calls(..)): value at the start of the loop iteration
 			}
 			return Val{ts: []Term{x.hget(env.heap, key)}}
-		case "verif_calls", "verif_lastarg", "verif_lastres":
+		case "verif_calls", "verif_lastarg", "verif_lastres", "verif_lastargn":
 			tv := env.info.Types[e.Args[0]]
 			if tv.Value == nil {
 				return env.fail(e, "counter name must be a string constant")
@@ -609,6 +622,17 @@ func (env *specEnv) call(e *ast.CallExpr) Val {
 					return env.fail(e, "argument index must be a constant")
 				}
 				key = fmt.Sprintf("$arg:%s:%s", cn, iv.Value.ExactString())
+			}
+			if id.Name == "verif_lastargn" {
+				// lastargn(name, i, k): leaf k of argument i (slices: 0 base, 1 offset, 2 length, 3 capacity)
+				iv, kv := env.info.Types[e.Args[1]], env.info.Types[e.Args[2]]
+				if iv.Value == nil || kv.Value == nil {
+					return env.fail(e, "argument and leaf index must be constants")
+				}
+				key = fmt.Sprintf("$arg:%s:%s", cn, iv.Value.ExactString())
+				if kv.Value.ExactString() != "0" {
+					key += ":" + kv.Value.ExactString()
+				}
 			}
 			x.regKey(key, "Int")
 			// ghost counters are read in the state the clause is evaluated in, even under old(): their entry
@@ -699,7 +723,17 @@ func (env *specEnv) call(e *ast.CallExpr) Val {
 				}
 			}
 			if id.Name == "verif_forall" {
-				return Val{ts: []Term{fmt.Sprintf("(forall (%s) %s)", strings.Join(binders, " "), implies(and(ranges...), body))}}
+				full := implies(and(ranges...), body)
+				if strings.Contains(body, "(exists ") || strings.Contains(body, "(forall ") {
+					var names []string
+					for _, b := range binders {
+						names = append(names, strings.Fields(strings.Trim(b, "()"))[0])
+					}
+					if trg := findTrigger(body, names); trg != "" {
+						return Val{ts: []Term{fmt.Sprintf("(forall (%s) (! %s :pattern (%s)))", strings.Join(binders, " "), full, trg)}}
+					}
+				}
+				return Val{ts: []Term{fmt.Sprintf("(forall (%s) %s)", strings.Join(binders, " "), full)}}
 			}
 			return Val{ts: []Term{fmt.Sprintf("(exists (%s) %s)", strings.Join(binders, " "), and(and(ranges...), body))}}
 		}
